@@ -733,6 +733,11 @@ pub struct SetTranscript {
 }
 
 pub fn set_transcript(fmt: Fmt, input: &Rc<Vec<u8>>, cfg: &Config, max_calls: usize) -> SetTranscript {
+    set_transcript_n(fmt, input, cfg, max_calls, None)
+}
+
+/// the same with exact-count reads of `n` records
+pub fn set_transcript_n(fmt: Fmt, input: &Rc<Vec<u8>>, cfg: &Config, max_calls: usize, n: Option<usize>) -> SetTranscript {
     let mut rig = make_rig(fmt, input.clone(), cfg, vec![]);
     let mut set = AnySet::new(fmt);
     let mut t = SetTranscript {
@@ -744,7 +749,7 @@ pub fn set_transcript(fmt: Fmt, input: &Rc<Vec<u8>>, cfg: &Config, max_calls: us
     };
     for _ in 0..max_calls {
         rig.begin_op();
-        let res = guarded(|| rig.r().read_set(&mut set, None));
+        let res = guarded(|| rig.r().read_set(&mut set, n));
         match res {
             Err(c) => {
                 t.caught = Some(c);
@@ -988,6 +993,37 @@ pub fn c03(ctx: &Ctx, rep: &mut Report) {
                             b.2.extend(add);
                         }
                     }
+                }
+            }
+            // exact-count reads: the record stream and the batch sizes (n, except the last) must not
+            // depend on the configuration either, and must be the stream of the plain reads
+            if let Some((brecs, bterm, _)) = &base_set {
+                let n = [1usize, 2, 3, 7][(idx as usize + cfg.cap) % 4];
+                rep.evaluations += 1;
+                let st = set_transcript_n(fmt, &input, cfg, max_calls * 2 + 4, Some(n));
+                if let Some(c) = &st.caught {
+                    caught_violation(rep, c, "exact-count set reading", replay(cfg, "exact"));
+                } else {
+                    let term = st.terminal.as_ref().map(obs_key);
+                    let both_end = bterm.as_deref() == Some("END") && term.as_deref() == Some("END");
+                    let m = brecs.len().min(st.recs.len());
+                    if brecs[..m] != st.recs[..m] || (both_end && brecs.len() != st.recs.len()) {
+                        rep.violation(
+                            "config-dependent-exact-records",
+                            format!(
+                                "{}: exact reads of {} deliver {} records under {}, plain set reads under the first configuration deliver {} (or contents differ)",
+                                fmt.name(), n, st.recs.len(), cfg.describe(), brecs.len()
+                            ),
+                            replay(cfg, "exact"),
+                        );
+                    } else if both_end && st.batches != (brecs.len() + n - 1) / n {
+                        rep.violation(
+                            "exact-batch-sizes",
+                            format!("{}: {} records in {} exact batches of {} under {}", fmt.name(), brecs.len(), st.batches, n, cfg.describe()),
+                            replay(cfg, "exact"),
+                        );
+                    }
+                    rep.add("exact_batches_compared", st.batches as u64);
                 }
             }
         }
